@@ -1171,6 +1171,7 @@ func runC20(cfg Config) {
 			}
 		}
 	}
+	c20WindowFrames(cfg, rep, rng, monitor)
 	rep.Write(cfg.Out)
 }
 
